@@ -134,6 +134,13 @@ def _enumerate(prog, scope=None, crates=SHIPPED):
                         st = canon(t.self_ty or "")
                         ga = t.gen_args or ""
                         kind = "index:%s" % _index_class(st, ga)
+            if kind is None and t.kind == "call":
+                # precondition / panicking APIs passed as *function values* (e.g. `.map(Duration::from_secs_f64)`)
+                for a in t.args:
+                    if a.const is not None and a.const.fn:
+                        fv = canon(a.const.fn)
+                        if fv in PRECONDITION or fv in PANIC_CALLS:
+                            kind = "fn-value:" + (PRECONDITION.get(fv) or PANIC_CALLS.get(fv))
             if kind is None:
                 continue
             s = Site()
